@@ -187,7 +187,7 @@ class AsyncioBcpClientSocket():
     @staticmethod
     def _process_command(message, rawbytes=None):
         cmd, kwargs = decode_command_string(message.decode())
-        if rawbytes:
+        if rawbytes is not None:
             kwargs['rawbytes'] = rawbytes
 
         return cmd, kwargs
@@ -326,7 +326,7 @@ class BCPClientSocket(BaseBcpClient):
             self.debug_log('Received "%s"', message)
 
         cmd, kwargs = decode_command_string(message.decode())
-        if rawbytes:
+        if rawbytes is not None:
             kwargs['rawbytes'] = rawbytes
 
         if cmd in self._bcp_client_socket_commands:
